@@ -539,3 +539,38 @@ func fprint(i *interpreter, fr *frame, w iface, cells []value) value {
 }
 
 var _ = ssa.NaiveForm
+
+// ---------------------------------------------------------------------
+// time: the package runs from source; the runtime hooks are modelled.
+// The clock is a per-path counter of seconds (non-decreasing), no monotonic
+// reading, timers and tickers never fire.
+
+func init() {
+	for k, v := range map[string]externalFn{
+		"time.now": func(fr *frame, args []value) value {
+			i := fr.i
+			i.clock++
+			return tuple{int64(i.clock), int32(0), int64(0)}
+		},
+		"time.runtimeNano": func(fr *frame, args []value) value {
+			fr.i.clock++
+			return int64(fr.i.clock) * 1000000000
+		},
+		"time.runtimeNow": func(fr *frame, args []value) value {
+			i := fr.i
+			i.clock++
+			return tuple{int64(i.clock), int32(0), int64(0)}
+		},
+		"time.initLocal": func(fr *frame, args []value) value { return nil },
+		"time.After": func(fr *frame, args []value) value { return &vchan{capacity: 1} },
+		"time.Tick":  func(fr *frame, args []value) value { return &vchan{capacity: 1} },
+		"time.startTimer": func(fr *frame, args []value) value { return nil },
+		"time.stopTimer":  func(fr *frame, args []value) value { return false },
+		"time.resetTimer": func(fr *frame, args []value) value { return false },
+		"time.newTimer": func(fr *frame, args []value) value {
+			return zero(fr.fn.Signature.Results().At(0).Type())
+		},
+	} {
+		externals[k] = v
+	}
+}
